@@ -29,7 +29,11 @@ type deferred struct {
 }
 
 func (e *Exec) goPanicf(format string, args ...interface{}) {
-	panic(goPanic{msg: fmt.Sprintf(format, args...)})
+	msg := fmt.Sprintf(format, args...)
+	if n := len(e.callStack); n > 0 {
+		msg += " in " + e.callStack[n-1]
+	}
+	panic(goPanic{msg: msg})
 }
 
 // callFunction interprets fn with args.
@@ -42,7 +46,8 @@ func (e *Exec) callFunction(fn *ssa.Function, args []Value, bindings []Value) Va
 	if p.depth > e.Cfg.MaxDepth {
 		panic(engineErr("call depth exceeded at %s", fn.String()))
 	}
-	defer func() { p.depth-- }()
+	e.callStack = append(e.callStack, fn.Name())
+	defer func() { p.depth--; e.callStack = e.callStack[:len(e.callStack)-1] }()
 	if !e.initMode {
 		e.FuncsSeen[fn.String()] = true
 	}
